@@ -139,6 +139,9 @@ def flatten_object(s: dict, comps: dict, seen=None) -> tuple[list, Any]:
             props[p[0]] = [p[0], p[1], props[p[0]][2] or p[2]]
         else:
             props[p[0]] = list(p)
+    for n in s.get("extra_required", []):
+        if n in props:
+            props[n] = [n, props[n][1], True]
     return list(props.values()), s.get("addl")
 
 
@@ -270,6 +273,8 @@ def _js(s: dict) -> dict:
             out["additionalProperties"] = False
         elif isinstance(a, dict):
             out["additionalProperties"] = _js(a)
+        if s.get("extra_required"):
+            out["required"] = list(out.get("required", [])) + list(s["extra_required"])
         if s.get("allOf"):
             out = {"allOf": [_js(m) for m in s["allOf"]] + [out]}
     else:
